@@ -81,7 +81,7 @@ theorem ids_sequential_per_session_partial (mode : Sched) (h1 : List SEv) (sid :
 second session's first request carries id 2. -/
 theorem ids_sequential_per_session_fails : ¬ IdsSequentialPerSession := by
   intro h
-  have := h .sync [.open_, .msg (.welcome 7) [], .api (.call 1 [] [] none .ok), .msg .goodbye []] 8 []
+  have := h .sync [.open_ [], .msg (.welcome 7) [], .api (.call 1 [] [] none .ok), .msg .goodbye []] 8 []
     [.api (.call 1 [] [] none .ok)] (by intro e he; simp at he; subst he; intro _ _ hne; cases hne)
   revert this
   decide
@@ -107,7 +107,7 @@ theorem ids_pending_were_issued (mode : Sched) (h : List SEv) (hn : (reqIds (run
   intro k id hid
   rw [← issued_eq_requests]; exact this k id hid
 
-example : (reqIds (runOuts (init .sync) [.open_, .msg (.welcome 1) [], .api (.call 1 [] [] none .ok),
+example : (reqIds (runOuts (init .sync) [.open_ [], .msg (.welcome 1) [], .api (.call 1 [] [] none .ok),
     .api (.subscribe 1 2 none .ok), .api (.publish 1 [] [] (some { acknowledge := some true }) .ok)])) = [1, 2, 3] := by decide
 
 /-! ## one_message_per_call -/
@@ -137,7 +137,7 @@ theorem one_message_per_call (s : Sess) (ht : s.transport = true) :
 
 /-- without a transport nothing is sent and no id is consumed: the call raises `TransportLost` -/
 theorem no_transport_no_message (s : Sess) (ht : s.transport = false) (a : Api)
-    (ha : ∀ f, a ≠ .cancel f) (hj : a ≠ .join) (hl : a ≠ .leave) (hu : ∀ o r, a = .unsubscribe o r → findSub o s.subs ≠ none)
+    (ha : ∀ f, a ≠ .cancel f) (hj : a ≠ .join) (hl : a ≠ .leave) (hd : a ≠ .disconnect) (hu : ∀ o r, a = .unsubscribe o r → findSub o s.subs ≠ none)
     (hg : ∀ o r, a = .unregister o r → findReg o s.regs ≠ none) :
     apiStep s a = (s, [.raise_ .transportLost]) := by
   cases a with
@@ -158,6 +158,7 @@ theorem no_transport_no_message (s : Sess) (ht : s.transport = false) (a : Api)
   | cancel f => exact absurd rfl (ha f)
   | join => exact absurd rfl hj
   | leave => exact absurd rfl hl
+  | disconnect => exact absurd rfl hd
 
 /-! the option → wire attribute tables, field by field (`types.py` `message_attr()` through `marshal()`) -/
 
@@ -195,15 +196,19 @@ theorem never_completes_twice (mode : Sched) (h : List SEv) :
       o ≠ .raise_ .internal ∧ o ≠ .caught .internal :=
   (run_inv (init_inv mode) h).2.2.1
 
+/-- what a session object outputs while it opens and joins (Twisted scheduling, default hooks) -/
+def started : List SOut :=
+  [.fire .connect, .hook .onConnect 0, .send { typ := .hello }, .hook .onWelcome 0, .fire .join, .hook .onJoin 0, .fire .ready]
+
 /-- non-vacuity: a duplicate RESULT and a RESULT after the user's cancel are histories of the theorem; the second
 reply finds no record (ProtocolError), the reply after cancel is swallowed -/
-example : runOuts (init .sync) [.open_, .msg (.welcome 1) [], .api (.call 1 [] [] none .ok),
+example : runOuts (init .sync) [.open_ [], .msg (.welcome 1) [], .api (.call 1 [] [] none .ok),
       .msg (.result 1 { args := some [5] } false) [], .msg (.result 1 { args := some [5] } false) []] =
-    [.send { typ := .hello }, .send { typ := .call, req := 1, uri := 1 }, .ret 0,
+    started ++ [.send { typ := .call, req := 1, uri := 1 }, .ret 0,
      .complete 0 (.value (.single 5)), .callback 0 (.value (.single 5)), .raise_ .protocolError] := by decide
-example : runOuts (init .sync) [.open_, .msg (.welcome 1) [], .api (.call 1 [] [] none .ok), .api (.cancel 0),
+example : runOuts (init .sync) [.open_ [], .msg (.welcome 1) [], .api (.call 1 [] [] none .ok), .api (.cancel 0),
       .msg (.result 1 { args := some [5] } false) []] =
-    [.send { typ := .hello }, .send { typ := .call, req := 1, uri := 1 }, .ret 0,
+    started ++ [.send { typ := .call, req := 1, uri := 1 }, .ret 0,
      .send { typ := .cancel, req := 1 }, .complete 0 .cancelled, .callback 0 .cancelled] := by decide
 
 
@@ -390,7 +395,7 @@ theorem reply_routing (s : Sess) (sid : Nat) (hs : s.sessionId = some sid) (beh 
   | welcome _ => simp [replyOf] at hm
   | goodbye => simp [replyOf] at hm
   | event _ _ _ => simp [replyOf] at hm
-  | invocation _ _ _ => simp [replyOf] at hm
+  | invocation _ _ _ _ => simp [replyOf] at hm
   | interrupt _ => simp [replyOf] at hm
   | abort => simp [replyOf] at hm
   | challenge => simp [replyOf] at hm
@@ -398,7 +403,7 @@ theorem reply_routing (s : Sess) (sid : Nat) (hs : s.sessionId = some sid) (beh 
 
 
 /-- non-vacuity of `reply_routing`: three requests of different kinds outstanding, answered out of order -/
-example : completions (runOuts (init .deferred) [.open_, .pump, .msg (.welcome 1) [], .api (.call 1 [] [] none .ok),
+example : completions (runOuts (init .deferred) [.open_ [], .pump, .msg (.welcome 1) [], .pump, .api (.call 1 [] [] none .ok),
       .api (.subscribe 5 2 none .ok), .api (.publish 3 [] [] (some { acknowledge := some true }) .ok),
       .msg (.published 3 9) [], .msg (.error 48 1 4 { args := some [7] }) [], .msg (.subscribed 2 50) []]) =
     [(2, .value (.publication 9)), (0, .error 4 [7] []), (1, .value (.subscription 50))] := by decide
@@ -463,7 +468,7 @@ theorem unknown_reply_is_violation (s : Sess) (sid : Nat) (hs : s.sessionId = so
   | welcome _ => simp [claims] at hm
   | goodbye => simp [claims] at hm
   | event _ _ _ => simp [claims] at hm
-  | invocation _ _ _ => simp [claims] at hm
+  | invocation _ _ _ _ => simp [claims] at hm
   | interrupt _ => simp [claims] at hm
   | abort => simp [claims] at hm
   | challenge => simp [claims] at hm
@@ -476,9 +481,9 @@ theorem unexpected_message_is_violation (s : Sess) (sid : Nat) (hs : s.sessionId
   simp [step, onMessage, hs, onEstablished]
 
 /-- non-vacuity: RESULT for an id that only a subscribe request holds; ERROR(SUBSCRIBE) for a call's id; duplicate -/
-example : runOuts (init .sync) [.open_, .msg (.welcome 1) [], .api (.subscribe 5 2 none .ok), .api (.call 1 [] [] none .ok),
+example : runOuts (init .sync) [.open_ [], .msg (.welcome 1) [], .api (.subscribe 5 2 none .ok), .api (.call 1 [] [] none .ok),
       .msg (.result 1 {} false) [], .msg (.error 32 2 4 {}) [], .msg (.error 99 2 4 {}) [], .msg (.published 7 1) []] =
-    [.send { typ := .hello }, .send { typ := .subscribe, req := 1, uri := 2 }, .ret 0, .send { typ := .call, req := 2, uri := 1 }, .ret 1,
+    started ++ [.send { typ := .subscribe, req := 1, uri := 2 }, .ret 0, .send { typ := .call, req := 2, uri := 1 }, .ret 1,
      .raise_ .protocolError, .raise_ .protocolError, .raise_ .protocolError, .raise_ .protocolError] := by decide
 
 /-! ## progress_only_own_handler -/
@@ -491,67 +496,55 @@ def progressCalls (r : Req) (p : Payload) : List SOut :=
   | none => []
   | some h => [.progress h (if r.details then .result (p.args.getD []) (p.kwargs.getD []) else .plain (p.args.getD []) (p.kwargs.getD []))]
 
-/-- `progress_only_own_handler`, full statement: a progressive RESULT for a pending call makes exactly the progress
+/-- `progress_only_own_handler`, the statement: a progressive RESULT for a pending call makes exactly the progress
 calls above (when the handler itself does nothing), completes nothing and leaves the state alone. -/
 def ProgressOnlyOwnHandler : Prop :=
   ∀ (s : Sess) (sid : Nat) (id : ReqId) (p : Payload) (r : Req),
     s.sessionId = some sid → alookup id s.tCall = some r →
     step s (.msg (.result id p true) []) = (s, progressCalls r p)
 
-/-- it fails: `CallOptions(on_progress=f, details=True)` and a progressive RESULT without kwargs (F10) … -/
-theorem progress_only_own_handler_fails_F10 : ¬ ProgressOnlyOwnHandler := by
-  intro h
-  have := h (runState (init .sync) [.open_, .msg (.welcome 1) [],
-      .api (.call 1 [] [] (some { onProgress := some 7, details := true }) .ok)]) 1 1 { args := some [1] }
-    { fut := 0, hasOpts := true, uri := 1, onProgress := some 7, details := true } (by decide) (by decide)
-  revert this
-  decide
-
-/-- … and for a call made without options at all (`call_request.options` is `None`: AttributeError). -/
-theorem progress_only_own_handler_fails_no_options : ¬ ProgressOnlyOwnHandler := by
-  intro h
-  have := h (runState (init .sync) [.open_, .msg (.welcome 1) [], .api (.call 1 [] [] none .ok)]) 1 1 {}
-    { fut := 0, uri := 1 } (by decide) (by decide)
-  revert this
-  decide
-
-/-- `progress_only_own_handler_partial`: outside those two shapes — the call was made with an options object, and if
-it asked for `details` the progressive RESULT carries both args and kwargs — a progressive RESULT calls the
-`on_progress` of *its own* call only (the handler recorded under that id), with the payload as the Spec says, then runs
-that handler's behaviour; it completes no future and touches no table. -/
-theorem progress_only_own_handler_partial (s : Sess) (sid : Nat) (hs : s.sessionId = some sid) (id : ReqId) (p : Payload)
-    (r : Req) (hr : alookup id s.tCall = some r) (beh : List HAct)
-    (hopts : r.hasOpts = true) (hshape : r.details = true → p.args.isSome = true ∧ p.kwargs.isSome = true) :
+/-- a progressive RESULT calls the `on_progress` of *its own* call only (the handler recorded under that id), with the
+payload as the Spec says (absent args/kwargs read as empty — since the repair of F10 also when `details` was requested,
+and a call made without an options object simply has no handler), then runs that handler's behaviour; it completes no
+future and touches no table. -/
+theorem progress_only_own_handler_beh (s : Sess) (sid : Nat) (hs : s.sessionId = some sid) (id : ReqId) (p : Payload)
+    (r : Req) (hr : alookup id s.tCall = some r) (beh : List HAct) :
     step s (.msg (.result id p true) beh) =
       match r.onProgress with
       | none => (s, [])
       | some _ => ((runAct s none (beh.headD {})).1, progressCalls r p ++ (runAct s none (beh.headD {})).2) := by
-  simp only [step, onMessage, hs, onEstablished, hr, hopts, progressCalls]
+  simp only [step, onMessage, hs, onEstablished, hr, progressCalls]
   cases hop : r.onProgress with
   | none => simp
-  | some h =>
-    by_cases hd : r.details = true
-    · obtain ⟨ha, hk⟩ := hshape hd
-      obtain ⟨a, ha'⟩ := Option.isSome_iff_exists.mp ha
-      obtain ⟨k, hk'⟩ := Option.isSome_iff_exists.mp hk
-      simp [hd, ha', hk']
-    · simp [hd]
+  | some h => simp
 
-/-- a progressive RESULT whose handler does nothing leaves the whole state unchanged — in particular it does not
-complete the call, which stays pending for its final RESULT -/
-theorem progress_does_not_complete (s : Sess) (sid : Nat) (hs : s.sessionId = some sid) (id : ReqId) (p : Payload)
-    (r : Req) (hr : alookup id s.tCall = some r)
-    (hopts : r.hasOpts = true) (hshape : r.details = true → p.args.isSome = true ∧ p.kwargs.isSome = true) :
-    step s (.msg (.result id p true) []) = (s, progressCalls r p) := by
-  rw [progress_only_own_handler_partial s sid hs id p r hr [] hopts hshape]
+/-- `progress_only_own_handler`, in full: a progressive RESULT whose handler does nothing leaves the whole state
+unchanged — in particular it does not complete the call, which stays pending for its final RESULT — and makes exactly
+the progress calls of the Spec. -/
+theorem progress_only_own_handler : ProgressOnlyOwnHandler := by
+  intro s sid id p r hs hr
+  rw [progress_only_own_handler_beh s sid hs id p r hr []]
   cases h : r.onProgress <;> simp [progressCalls, runAct, runCalls, h]
 
+theorem progress_does_not_complete (s : Sess) (sid : Nat) (hs : s.sessionId = some sid) (id : ReqId) (p : Payload)
+    (r : Req) (hr : alookup id s.tCall = some r) :
+    step s (.msg (.result id p true) []) = (s, progressCalls r p) :=
+  progress_only_own_handler s sid id p r hs hr
+
+/-- non-vacuity on the inputs that broke the code before the repair (ledger F10 and its no-options variant): the
+handler is called with `CallResult(1)`; a call made without options ignores the progressive RESULT -/
+example : (runOuts (runState (init .sync) [.open_ [], .msg (.welcome 1) [],
+      .api (.call 1 [] [] (some { onProgress := some 7, details := true }) .ok)]) [.msg (.result 1 { args := some [1] } true) []]) =
+    [.progress 7 (.result [1] [])] := by decide
+example : (runOuts (runState (init .sync) [.open_ [], .msg (.welcome 1) [], .api (.call 1 [] [] none .ok)])
+      [.msg (.result 1 {} true) []]) = [] := by decide
+
 /-- non-vacuity: two calls with different progress handlers; each progressive RESULT reaches its own handler -/
-example : runOuts (init .sync) [.open_, .msg (.welcome 1) [],
+example : runOuts (init .sync) [.open_ [], .msg (.welcome 1) [],
       .api (.call 1 [] [] (some { onProgress := some 7 }) .ok), .api (.call 2 [] [] (some { onProgress := some 8, details := true }) .ok),
       .msg (.result 2 { args := some [5], kwargs := some [] } true) [], .msg (.result 1 { args := some [6] } true) [{ raises := true }],
       .msg (.result 1 {} false) []] =
-    [.send { typ := .hello }, .send { typ := .call, req := 1, opts := [(.receiveProgress, .b true)], uri := 1 }, .ret 0,
+    started ++ [.send { typ := .call, req := 1, opts := [(.receiveProgress, .b true)], uri := 1 }, .ret 0,
      .send { typ := .call, req := 2, opts := [(.receiveProgress, .b true)], uri := 2 }, .ret 1,
      .progress 8 (.result [5] []), .progress 7 (.plain [6] []), .userError,
      .complete 0 (.value .none_), .callback 0 (.value .none_)] := by decide
